@@ -2,8 +2,10 @@ SPECIFICATION Spec
 CONSTANTS
   W = 2
   KeyList <- SK8
-  Vals = {1, 2}
+  Vals = {1, 2, 3}
   MaxOps = 40
   Depth = 41
+  AliasVal = 3
+  AliasKey <- AK
   HistOn = TRUE
 INVARIANT Emit
